@@ -279,6 +279,9 @@ type Net struct {
 	// OnDial observes every dial.
 	OnDial func(addr string)
 	Conns  []*Conn
+	// ServerMaxRead limits the bytes one Read of a server-side connection
+	// end returns (fragmentation of the byte stream as seen by the server).
+	ServerMaxRead int
 }
 
 func New() *Net {
@@ -345,7 +348,7 @@ func (n *Net) Dial(ctx context.Context, from, addr string) (*Conn, error) {
 	}
 	a, b := newHalf(), newHalf()
 	cl := &Conn{net: n, ID: fmt.Sprintf("c%d>", id), rd: a, wr: b, local: tcpAddr(from), remote: l.addr}
-	sv := &Conn{net: n, ID: fmt.Sprintf("c%d<", id), rd: b, wr: a, local: l.addr, remote: tcpAddr(from), AdoptAs: fmt.Sprintf("srvconn%d", id)}
+	sv := &Conn{net: n, ID: fmt.Sprintf("c%d<", id), rd: b, wr: a, local: l.addr, remote: tcpAddr(from), AdoptAs: fmt.Sprintf("srvconn%d", id), MaxRead: n.ServerMaxRead}
 	n.mu.Lock()
 	n.Conns = append(n.Conns, cl, sv)
 	n.mu.Unlock()
